@@ -11,6 +11,13 @@ props = sys.argv[2:] or [meta["property"]]
 work = tempfile.mkdtemp(prefix="seedtest-", dir="/var/tmp")
 env = dict(os.environ, GOFLAGS="-mod=mod", GOPROXY="off", GOSUMDB="off", GOTOOLCHAIN="local")
 res = {"seed": seed, "property": meta["property"]}
+def suite(cmd, cwd):
+    """the suite has two timing tests (5 ms grace period) that fail now and then on a loaded machine: up to 4 tries"""
+    for _ in range(4):
+        rc, out = sh(cmd, cwd=cwd)
+        if rc == 0 or not any(t in out for t in ("TestSessionIDChange", "TestSessionIDChangeDoS", "TestExpiredReferencedSession", "TestCache")):
+            break
+    return rc, out
 def sh(cmd, cwd=None, e=None, timeout=3000):
     p = subprocess.run(cmd, cwd=cwd, env=e or env, shell=isinstance(cmd, str), stdout=subprocess.PIPE, stderr=subprocess.STDOUT, text=True, timeout=timeout)
     return p.returncode, p.stdout
@@ -20,7 +27,7 @@ try:
     demo = os.path.join(seed, "demo_test.go")
     # clean tree + demo
     shutil.copy(demo, os.path.join(repo, "zz_seed_demo_test.go"))
-    rc, out = sh("go test -vet=off -count=1 -skip TestMutexesMultipleLocks .", cwd=repo)
+    rc, out = suite("go test -vet=off -count=1 -skip TestMutexesMultipleLocks .", cwd=repo)
     res["clean_with_demo_passes"] = rc == 0
     if rc: res["clean_log"] = out[-1500:]
     os.remove(os.path.join(repo, "zz_seed_demo_test.go"))
@@ -29,7 +36,7 @@ try:
     res["patch_applies"] = rc == 0
     if rc: res["apply_log"] = out[-1500:]
     shutil.rmtree(os.path.join(repo, ".git"), ignore_errors=True)
-    rc, out = sh("go build ./... && go test -vet=off -count=1 -skip TestMutexesMultipleLocks .", cwd=repo)
+    rc, out = suite("go build ./... && go test -vet=off -count=1 -skip TestMutexesMultipleLocks .", cwd=repo)
     res["changed_suite_passes"] = rc == 0
     if rc: res["suite_log"] = out[-1500:]
     shutil.copy(demo, os.path.join(repo, "zz_seed_demo_test.go"))
